@@ -764,6 +764,18 @@ def isTchar (b : UInt8) : Bool :=
 def validHeader (h : Bytes × Bytes) : Bool :=
   !h.1.isEmpty && h.1.all isTchar && h.2.all fun b => b == 32 || b == 9 || inRange b 0x21 0x7E
 
+/-- which of the agent's timeouts bounds which blocking step (`connect_host`: `timeout_connect` for `connect_timeout`;
+`set_read_timeout(timeout_read)` / `set_write_timeout(timeout_write)` on the stream; with an overall `timeout` set, the time
+left until that deadline replaces all three) -/
+def timeoutOf (agent : AgentConfig) (s : Step) : Option Duration :=
+  match agent.timeoutOverall with
+  | some d => some d
+  | none =>
+    match s with
+    | .connect => agent.timeoutConnect
+    | .write => agent.timeoutWrite
+    | .read => agent.timeoutRead
+
 end Ureq
 
 end Gd.Http
